@@ -353,12 +353,27 @@ class Executor:
         if "::promoted[" in t:
             m = re.fullmatch(r"(.*)::promoted\[(\d+)\]", t)
             base = re.escape(strip_generics(m.group(1)))
-            fn = self._find_promoted(m.group(1), m.group(2))
+            fn = self._promoted_of_current(st, m.group(2)) or self._find_promoted(m.group(1), m.group(2))
             return self.eval_promoted(st, fn)
         # unit struct / unit-like constants (e.g. `stdfs::Stdfs`)
         if re.fullmatch(r"[\w:]+", t):
             return Adt(t.split("::")[-1], None, None, [])
         raise Unsupported("constant " + t)
+
+    def _promoted_of_current(self, st, idx):
+        """promoted bodies are printed right after their owner: look between the executing function's
+        header and the next `fn` header"""
+        if not st.frames:
+            return None
+        line = st.frames[-1].fn.line
+        for i, l, p in self.mir.headers:
+            if i <= line:
+                continue
+            if not p:
+                break
+            if "::promoted[%s]" % idx in l:
+                return self.mir.function_at(i)
+        return None
 
     def _find_promoted(self, owner, idx):
         def norm(x):
